@@ -41,13 +41,14 @@ void Session::start_server()
 {
 	std::vector<std::string> a = {"iodined", "-f"};
 	if (!c.check_ip) a.push_back("-c");
-	a.push_back("-P"); a.push_back(c.password);
+	if (!c.pass_env_server) { a.push_back("-P"); a.push_back(c.password); }
 	if (c.forward_port) { a.push_back("-b"); a.push_back(std::to_string(c.forward_port)); }
 	if (c.mtu) { a.push_back("-m"); a.push_back(std::to_string(c.mtu)); }
 	a.push_back(c.server_ip + "/" + std::to_string(c.netmask));
 	a.push_back(c.srv_domain.empty() ? c.domain : c.srv_domain);
 	Addr h4 = SRV4, h6 = SRV6;
 	srv = W.add_instance("iodined", entry_srv(), image_srv(), a, h4, h6, c.srv_seed);
+	if (c.pass_env_server) srv->env["IODINED_PASS"] = c.password;
 }
 
 Addr Session::client_addr(int k) const
@@ -63,7 +64,7 @@ void Session::start_client(int k)
 {
 	std::vector<std::string> a = {"iodine", "-f"};
 	if (!c.raw_mode) a.push_back("-r");
-	a.push_back("-P"); a.push_back(c.password);
+	if (!c.pass_env_client) { a.push_back("-P"); a.push_back(c.password); }
 	if (c.qtype) { a.push_back("-T"); a.push_back(refproto::qtype_name(c.qtype)); }
 	if (c.downenc) { a.push_back("-O"); a.push_back(DOWNENC_NAME[c.downenc]); }
 	if (c.frag >= 0) { a.push_back("-m"); a.push_back(std::to_string(c.frag)); }
@@ -82,6 +83,7 @@ void Session::start_client(int k)
 	int (*entry)(int, char **) = k == 0 ? entry_cli0() : (k == 1 ? entry_cli1() : entry_cli2());
 	ImageRegion *im = k == 0 ? image_cli0() : (k == 1 ? image_cli1() : image_cli2());
 	cli[k] = W.add_instance(fmt("iodine%d", k), entry, im, a, h4, h6, c.cli_seed + 1000 * k);
+	if (c.pass_env_client) cli[k]->env["IODINE_PASS"] = c.password;
 }
 
 bool Session::client_up(int k) const
